@@ -71,7 +71,7 @@ var SitePositions = []SitePos{
 	{"PPkgLast", lit("(package pk 5 X)"), false},
 	{"PDefRhs", lit("(def j X)"), false},
 	{"PSetRhs", lit("(set k X)"), false},
-	{"PMdefRhs", lit("(mdef j1 j2 (list X 2))"), false}, // see siteNote
+	{"PMdefRhs", lit("(mdef j1 j2 X)"), false},
 	{"PAssignRhs", lit("(j = X)"), false},
 	{"PDefLhs", lit("(def X 5)"), false},
 	{"PSetLhs", lit("(set X 5)"), false},
@@ -94,7 +94,7 @@ var SitePositions = []SitePos{
 	{"PMacroExpansion", lit("(c9idm X)"), true},
 	{"PIncludeLastFile", func(x, self, dir string) string {
 		return fmt.Sprintf("(include %q %q)", includeFile(dir, "5"), includeFile(dir, x))
-	}, true},
+	}, false},
 	{"PIncludeNonLastFile", func(x, self, dir string) string {
 		return fmt.Sprintf("(include %q %q)", includeFile(dir, x), includeFile(dir, "5"))
 	}, false},
@@ -109,18 +109,7 @@ func sitePos(name string) *SitePos {
 	return nil
 }
 
-// PMdefRhs: the right-hand side of mdef must be a list, so the self call is one level further down,
-// as an argument of `list`; that is the path PMdefRhs/PCallArg.
-func sitePathNames(path []string) []string {
-	var out []string
-	for _, q := range path {
-		out = append(out, q)
-		if q == "PMdefRhs" {
-			out = append(out, "PCallArg")
-		}
-	}
-	return out
-}
+func sitePathNames(path []string) []string { return path }
 
 var siteDir = filepath.Join(os.TempDir(), "c09-include")
 
@@ -254,4 +243,16 @@ func (h *Harness) sites(rng *lib.Rng, thorough bool) {
 		}
 		h.site(path, i%3 == 0, 0)
 	}
+}
+
+// KnownLeakPositions: positions listed as open findings (coq/Model/TailSites.v known_leaks); none now.
+var KnownLeakPositions = []string{}
+
+func siteThroughKnownLeak(shape string) bool {
+	for _, q := range KnownLeakPositions {
+		if strings.Contains(shape, q) {
+			return true
+		}
+	}
+	return false
 }
